@@ -11,12 +11,26 @@ Monitors:
 from .. import common
 
 common.setup_env()
+import sys
 import collections  # noqa: E402
 import random  # noqa: E402
 import spydrnet as sdn  # noqa: E402
 from spydrnet.callback.callback_listener import CallbackListener  # noqa: E402
 from spydrnet.ir.outerpin import OuterPin as BaseOuterPin  # noqa: E402
 from spydrnet.ir.definition import Definition as BaseDefinition  # noqa: E402
+from spydrnet.ir.netlist import Netlist as BaseNetlist  # noqa: E402
+from spydrnet.ir.library import Library as BaseLibrary  # noqa: E402
+from spydrnet.ir.port import Port as BasePort  # noqa: E402
+from spydrnet.ir.cable import Cable as BaseCable  # noqa: E402
+from spydrnet.ir.wire import Wire as BaseWire  # noqa: E402
+from spydrnet.ir.instance import Instance as BaseInstance  # noqa: E402
+from spydrnet.ir.innerpin import InnerPin as BaseInnerPin  # noqa: E402
+from spydrnet.ir.pin import Pin as BasePin  # noqa: E402
+
+# what each announcement's arguments must be for a listener to know WHICH change is meant
+ARG_TYPES = {"libs": (BaseNetlist, BaseLibrary), "defs": (BaseLibrary, BaseDefinition), "ports": (BaseDefinition, BasePort),
+             "cables": (BaseDefinition, BaseCable), "children": (BaseDefinition, BaseInstance), "pins": (BasePort, BaseInnerPin),
+             "wires": (BaseCable, BaseWire)}
 
 from .. import probes, gen_ops  # noqa: E402
 
@@ -29,7 +43,8 @@ ASSUMPTIONS = ["containment order is not mirrored (notifications carry no positi
                "a second identical disconnect notification inside one outermost call is tolerated and counted",
                "outer pins are identified by the stored pin object resolved through the read API at notification time"]
 REQUIRED = {"notifications": 20000, "mirror_compares": 5000, "prestate_checks": 10000, "differential_runs": 20}
-PROBES = {}
+BADPOS = "non-integer-position-fails-late"
+PROBES = {BADPOS: lambda: gen_ops.probe_bad_position("name")}
 FENCES = ()
 
 
@@ -71,13 +86,24 @@ class Shadow(CallbackListener):
         if not ok and self.pre_fail is None:
             self.pre_fail = what
 
+    def _types_ok(self, what, pairs):
+        bad = [(type(x).__name__, getattr(t, "__name__", "Definition or None")) for x, t in pairs if not isinstance(x, t)]
+        self.ctx.count("announcement_argument_type_checks")
+        if bad and self.pre_fail is None:
+            self.pre_fail = "arguments of the %s announcement do not identify the change: got %s where %s belongs" % (what, bad[0][0], bad[0][1])
+        return not bad
+
     def _add(self, kind, parent, child, backptr, listing):
+        if not self._types_ok(kind + " add", zip((parent, child), ARG_TYPES[kind])):
+            return
         self._note()
         self.keep += [parent, child]
         self._pf("%s announced but already visible" % kind, getattr(child, backptr) is not parent and not any(x is child for x in listing))
         self.contain.setdefault((kind, id(parent)), set()).add(id(child))
 
     def _rem(self, kind, parent, child, backptr, listing):
+        if not self._types_ok(kind + " remove", zip((parent, child), ARG_TYPES[kind])):
+            return
         self._note()
         self._pf("%s removal announced but already done" % kind, getattr(child, backptr) is parent and any(x is child for x in listing))
         self.contain.setdefault((kind, id(parent)), set()).discard(id(child))
@@ -91,23 +117,25 @@ class Shadow(CallbackListener):
     def create_instance(self, x): self._note(); self.keep.append(x)
 
     # containment
-    def netlist_add_library(self, n, l): self._add("libs", n, l, "netlist", n.libraries)
-    def netlist_remove_library(self, n, l): self._rem("libs", n, l, "netlist", n.libraries)
-    def library_add_definition(self, l, d): self._add("defs", l, d, "library", l.definitions)
-    def library_remove_definition(self, l, d): self._rem("defs", l, d, "library", l.definitions)
-    def definition_add_port(self, d, p): self._add("ports", d, p, "definition", d.ports)
-    def definition_remove_port(self, d, p): self._rem("ports", d, p, "definition", d.ports)
-    def definition_add_cable(self, d, c): self._add("cables", d, c, "definition", d.cables)
-    def definition_remove_cable(self, d, c): self._rem("cables", d, c, "definition", d.cables)
-    def definition_add_child(self, d, i): self._add("children", d, i, "parent", d.children)
-    def definition_remove_child(self, d, i): self._rem("children", d, i, "parent", d.children)
-    def port_add_pin(self, p, x): self._add("pins", p, x, "port", p.pins)
-    def port_remove_pin(self, p, x): self._rem("pins", p, x, "port", p.pins)
-    def cable_add_wire(self, c, w): self._add("wires", c, w, "cable", c.wires)
-    def cable_remove_wire(self, c, w): self._rem("wires", c, w, "cable", c.wires)
+    def netlist_add_library(self, n, l): self._add("libs", n, l, "netlist", getattr(n, "libraries", ()))
+    def netlist_remove_library(self, n, l): self._rem("libs", n, l, "netlist", getattr(n, "libraries", ()))
+    def library_add_definition(self, l, d): self._add("defs", l, d, "library", getattr(l, "definitions", ()))
+    def library_remove_definition(self, l, d): self._rem("defs", l, d, "library", getattr(l, "definitions", ()))
+    def definition_add_port(self, d, p): self._add("ports", d, p, "definition", getattr(d, "ports", ()))
+    def definition_remove_port(self, d, p): self._rem("ports", d, p, "definition", getattr(d, "ports", ()))
+    def definition_add_cable(self, d, c): self._add("cables", d, c, "definition", getattr(d, "cables", ()))
+    def definition_remove_cable(self, d, c): self._rem("cables", d, c, "definition", getattr(d, "cables", ()))
+    def definition_add_child(self, d, i): self._add("children", d, i, "parent", getattr(d, "children", ()))
+    def definition_remove_child(self, d, i): self._rem("children", d, i, "parent", getattr(d, "children", ()))
+    def port_add_pin(self, p, x): self._add("pins", p, x, "port", getattr(p, "pins", ()))
+    def port_remove_pin(self, p, x): self._rem("pins", p, x, "port", getattr(p, "pins", ()))
+    def cable_add_wire(self, c, w): self._add("wires", c, w, "cable", getattr(c, "wires", ()))
+    def cable_remove_wire(self, c, w): self._rem("wires", c, w, "cable", getattr(c, "wires", ()))
 
     # connections
     def wire_connect_pin(self, w, pin):
+        if not self._types_ok("connect", [(w, BaseWire), (pin, BasePin)]):
+            return
         self._note()
         r = resolve(pin)
         self.keep += [w, r]
@@ -115,6 +143,8 @@ class Shadow(CallbackListener):
         self.wpins.setdefault(id(w), set()).add(id(r))
 
     def wire_disconnect_pin(self, w, pin):
+        if not self._types_ok("disconnect", [(w, BaseWire), (pin, BasePin)]):
+            return
         self._note()
         r = resolve(pin)
         key = (id(w), id(r))
@@ -126,6 +156,8 @@ class Shadow(CallbackListener):
         self.wpins.setdefault(id(w), set()).discard(id(r))
 
     def instance_reference(self, i, ref):
+        if not self._types_ok("reference", [(i, BaseInstance), (ref, (BaseDefinition, type(None)))]):
+            return
         self._note()
         self.keep += [i, ref]
         self.ref[id(i)] = None if ref is None else id(ref)
@@ -335,7 +367,7 @@ def one_run(seed_rng_state, nsteps, policy, extra):
     if extra:
         listeners = [Passive() for _ in range(extra)]
         partial = make_partial(random.Random(extra * 7919 + nsteps))()
-    eng = gen_ops.Engine(rng, "listen", policy, fences=FENCES)
+    eng = gen_ops.Engine(rng, "listen", policy, fences=tuple(FENCES) + (("bad_position",) if common.fenced(sys.modules[__name__], BADPOS) else ()))
     toggled = Passive() if extra else None
     state = {"on": bool(toggled)}
     if toggled:
@@ -462,7 +494,7 @@ def run_case(ctx, i, rng):
             return
         sh = Shadow(ctx)
         try:
-            eng = gen_ops.Engine(rng, "listen", policy, fences=FENCES)
+            eng = gen_ops.Engine(rng, "listen", policy, fences=tuple(FENCES) + (("bad_position",) if common.fenced(sys.modules[__name__], BADPOS) else ()))
             m = C19Monitor(ctx, sh)
             gen_ops.run_history(eng, rng.randint(60, 160), [m])
         finally:
